@@ -51,18 +51,18 @@ from ..core.ctx import exc_label
 PROP = "C20"
 RULE = ("cases = (operation getitem|vindex|blocks, shape, chunking, dtype, encoded index). Complete part: every "
         "slice(start, stop, step) with start/stop in [-n-1, n+1] u {None}, step in {+-1, +-2, +-3, None} on 1-d arrays of "
-        "length n x ALL chunkings of the axis (quick n<=5, thorough n<=6 plus products of slices on shape (3,2)). Random part: "
+        "length n x ALL chunkings of the axis (quick n<=4, thorough n<=6 plus products of slices on shape (3,2)). Random part: "
         "1-4 d arrays with axis lengths 0-9 and random (irregular, size-1, single) chunkings; index tuples mixing ints, slices, "
         "None, Ellipsis, one 1-d integer or boolean indexer (list / NumPy / dask; sorted, unsorted, duplicate, negative, empty), "
         "0-d dask ints, full-shape masks; vindex with broadcasting index arrays; blocks[]. non-trivial = some axis split into "
         ">= 2 chunks; distinct = distinct (op, shape, chunks, dtype, index).")
 ASSUMPTIONS = ["NumPy 2.x indexing defines the expected result", "sync scheduler (threads for a tenth)",
                "vindex axis order as documented in Array.vindex"]
-BUDGET = {"quick": 200, "thorough": 900}
+BUDGET = {"quick": 120, "thorough": 900}
 FLOORS = {"quick": {"evaluations": 1, "distinct_nontrivial": 1, "counters": {}, "max_skipped_fraction": 0.35},
           "thorough": {"evaluations": 1, "distinct_nontrivial": 1, "counters": {}, "max_skipped_fraction": 0.35}}
 EXHAUSTIVE_SPACE = {
-    "quick": "all slices (start, stop in [-n-1, n+1] u {None}; step in {None, 1, -1, 2, -2, 3, -3}) of 1-d arrays of length n = 0..5 x all chunkings of the axis",
+    "quick": "all slices (start, stop in [-n-1, n+1] u {None}; step in {None, 1, -1, 2, -2, 3, -3}) of 1-d arrays of length n = 0..4 x all chunkings of the axis",
     "thorough": "all slices (start, stop in [-n-1, n+1] u {None}; step in {None, 1, -1, 2, -2, 3, -3}) of 1-d arrays of length n = 0..6 x all chunkings; "
                 "products of slices (start, stop in [-n-1, n+1] u {None}; step in {1, -1, -2}) on shape (3, 2) x all 8 chunkings",
 }
@@ -84,7 +84,7 @@ def _bounds(n):
 
 def cases(tier, seed):
     rng = random.Random(seed * 7727 + 20)
-    nmax = 5 if tier == "quick" else 6
+    nmax = 4 if tier == "quick" else 6
     for n in range(0, nmax + 1):
         for ch in A.compositions(n):
             for a in _bounds(n):
@@ -103,7 +103,7 @@ def cases(tier, seed):
                                     yield {"space": "exhaustive", "op": "getitem", "shape": [3, 2], "chunks": [list(c) for c in chs],
                                            "dtype": "int64", "bare": False,
                                            "index": [{"k": "slice", "v": [a0, b0, c0]}, {"k": "slice", "v": [a1, b1, c1]}]}
-    n = 9000 if tier == "quick" else 150000
+    n = 6000 if tier == "quick" else 100000
     for _ in range(n):
         nd = rng.choice((0, 1, 1, 1, 2, 2, 2, 3, 3, 4)) if rng.random() < 0.1 else rng.choice((1, 1, 2, 2, 2, 3, 3, 4))
         maxlen = {0: 9, 1: 9, 2: 9, 3: 6, 4: 4}[nd]
